@@ -80,7 +80,9 @@ pub trait ISecureFramer {
       r matches Ok(Some(m)) ==> final(self).read_log() == old(self).read_log().push(m)
         && final(self).budget(final(network_buffer)@) < old(self).budget(old(network_buffer)@),
       !(r matches Ok(Some(_))) ==> final(self).read_log() == old(self).read_log(),
-      r matches Ok(None) ==> final(self).would_block(final(network_buffer)@);
+      r matches Ok(None) ==> final(self).would_block(final(network_buffer)@),
+      // a framer only ever consumes from the front of the buffer it is handed (proved for NullFramer / LengthPrefixedFramer in unit framer)
+      final(network_buffer).stream() == old(network_buffer).stream();
   fn write_msg_multipart(&mut self, msgs: FrameBatch) -> (r: Result<Bytes, ZmqError>)
     ensures final(self).origin_kind() == old(self).origin_kind(), final(self).origin_complete() == old(self).origin_complete(),
       final(self).origin_role_server() == old(self).origin_role_server(),
